@@ -275,6 +275,9 @@ def _below_lookup(path, pc, lookup_classes):
     return False
 
 
+from ..consteval import cnorm as _cn, env_of as _envof
+
+
 def pre_post_symmetry(ctx, repo):
     ctx.rule("MRG-sym", "every (receiver, map method) applied by layoutPreMerge (indices -> objects) is applied by layoutPostMerge in each of its passes, and the last pass of each kind uses NonhashableDict (objects -> indices)", floor=8)
     m = repo.mod(LAYOUT)
@@ -323,7 +326,7 @@ def pre_post_symmetry(ctx, repo):
                     if not pol:
                         continue
                     for c in (t.values if isinstance(t, ast.BoolOp) and isinstance(t.op, ast.And) else [t]):
-                        cs.add(norm(inline_locals(f.node, c)))
+                        cs.add(_cn(inline_locals(f.node, c), _envof(f.node)))  # named constants fold to their value
                 out.append(cs)
         return out
 
